@@ -5,7 +5,7 @@ from props.corecase import file_to_coq, shrink_file, BACKENDS, response_class
 
 ID = "C13"
 HARNESS = "c13"
-N_CASES = {"quick": 8, "thorough": 160}
+N_CASES = {"quick": 6, "thorough": 160}
 N_SEARCH = {"quick": 1, "thorough": 2}
 SHARD = 2
 HAS_MODEL_OUT = True
@@ -15,7 +15,7 @@ RULE = ("arbitrary wire-valid query messages (packed by miekg/dns and unpacked a
         "and client-subnet options of both families, family 0, all prefix lengths; max-answer 0..8; four clients; "
         "against root-zone, root-delegation, empty and generated databases on CDB / RocksDB v1 / RocksDB v2; two cases "
         "per database (EDNS version 0 or none / other versions); plus a UDP class: a database with large record sets "
-        "(14-16 NS with glue, TXT sets of 1-16 strings, 12 MX with addresses, a 1500-byte TXT), 70 queries without EDNS / "
+        "(14-16 NS with glue, TXT sets of 1-16 strings, 12 MX with addresses, a 300-byte TXT), 36 queries without EDNS / "
         "with EDNS sizes 0, 512, 600, 700-900, 1232, 4096, with and without client-subnet options (v4 /24, v6 /56, v6 /128, "
         "behind a COOKIE) and DO, sent over a UDP and a TCP writer; non-trivial = distinct (database class, query name, "
         "type, class, EDNS shape, response class)")
